@@ -356,6 +356,7 @@ class Run:
                 for h in hs:
                     if isinstance(h, dict):
                         h.pop("docref", None)
+                        h.pop("docref_survived_remove", None)
 
     # ---- buffered blocks ------------------------------------------------------
     def open_block(self, kind, arg):
@@ -706,6 +707,9 @@ class Run:
             for hs in self.handles[t]:
                 if isinstance(hs, dict) and hs.get("docref") is not None and (cur is None or hs["docref"] is not cur):
                     hs.pop("docref", None)
+                    hs.pop("docref_survived_remove", None)
+                elif isinstance(hs, dict) and hs.get("docref") is not None:
+                    hs["docref_survived_remove"] = True
             self.shared_doc = cur
         in_block = bool(self.stack)
         if name in ("job_clear", "job_reset"):
@@ -860,12 +864,16 @@ class Run:
                     self.nontrivial = True
             objs = self.block_objs.setdefault(t, set())
             objs |= self._op_objs
-            if len(objs) >= 2 and wrote:
-                # two document objects on this file inside one block (also through ONE handle: a held reference
-                # next to a fresh access after remove()+init()), and a write: F-BUFSTALEOBJ territory
+            # two document objects on one file inside one block are the dependency's territory (F-BUFSTALEOBJ) only
+            # where signac's design yields two objects: several handles, or a reference held across remove()+init()
+            # next to a fresh access. (One handle, no remove in between: job.doc is one object -- if it is not,
+            # that is signac's doing and is judged like everything else.)
+            explained = len(self.block_touch.get(t, ())) >= 2 or any(
+                isinstance(hs, dict) and hs.get("docref_survived_remove") for hs in self.handles[t])
+            if len(objs) >= 2 and wrote and explained:
                 self.stale_targets.add(t)
                 self.cl.add("stale_object_in_block")
-            if len(self.block_touch.get(t, ())) < 2 and len(objs) < 2:
+            if len(self.block_touch.get(t, ())) < 2 and not (len(objs) >= 2 and explained):
                 self.verify_in_block(t, hidx, wrote)
             else:
                 # not asserted; only follow what the dependency's None-over-collection rule (F-DOCNONE) did
